@@ -301,6 +301,59 @@ fn c12_option_setter_programs() {
 }
 
 #[kani::proof]
+fn c12t_option_setter_programs_6() {
+    let _ = havoc();
+    let mut e = reachable_entry();
+    let a = any_canonical();
+    let cs0 = m().seg[isa::CS];
+    let o = unsafe { e.set_handler_addr(VirtAddr::new(a)) };
+    // model of the five independent fields
+    let (mut present, mut typ, mut dpl, mut ist, mut sel) = (1u64, 0xEu64, 0u64, 0u64, cs0 as u64);
+    let mut step = 0;
+    while step < 6 {
+        match kani::any::<u8>() % 5 {
+            0 => {
+                let p: bool = kani::any();
+                o.set_present(p);
+                present = p as u64;
+            }
+            1 => {
+                let d: bool = kani::any();
+                o.disable_interrupts(d);
+                typ = if d { 0xE } else { 0xF }; // interrupt gate clears IF, trap gate does not
+            }
+            2 => {
+                let r = PrivilegeLevel::from_u16(kani::any::<u16>() % 4);
+                o.set_privilege_level(r);
+                dpl = r as u64;
+            }
+            3 => {
+                let i: u16 = kani::any();
+                kani::assume(i <= 6);
+                unsafe { o.set_stack_index(i) };
+                ist = i as u64 + 1;
+            }
+            _ => {
+                let s = SegmentSelector(kani::any());
+                unsafe { o.set_code_selector(s) };
+                sel = s.0 as u64;
+            }
+        }
+        step += 1;
+    }
+    let g = decode(&gate_bytes(&e));
+    vp!(C12, g.present == present, "present bit differs from the setter history");
+    vp!(C12, g.typ == typ, "gate type differs from the setter history");
+    vp!(C12, g.dpl == dpl, "DPL differs from the setter history");
+    vp!(C12, g.ist == ist, "IST field is not index+1 of the last set_stack_index");
+    vp!(C12, g.selector == sel, "selector differs from the setter history");
+    vp!(C12, g.offset == a && e.handler_addr().as_u64() == a, "an option setter changed the handler address");
+    vp!(C12, g.zero_4 == 0 && g.zero_s == 0 && g.reserved == 0, "an option setter set a reserved bit");
+    kani::cover!(ist == 7 && dpl == 3 && typ == 0xF);
+    kani::cover!(present == 0);
+}
+
+#[kani::proof]
 fn c12_set_stack_index_too_big_xpanic() {
     let mut o = EntryOptions::minimal();
     let i: u16 = kani::any();
